@@ -415,10 +415,14 @@ func (o bOp) String() string {
 	switch o.Kind {
 	case "ask":
 		return fmt.Sprintf("ask(%s,%s,%s)", o.Name, qt(o.Qtype), o.Scope)
+	case "ask!":
+		return fmt.Sprintf("ask_without_settling(%s,%s,%s)", o.Name, qt(o.Qtype), o.Scope)
 	case "rej":
 		return fmt.Sprintf("reject(%s,%s)", o.Name, qt(o.Qtype))
 	case "ans":
 		return "upstream_answers=" + ansNames[o.Ans]
+	case "ttl":
+		return fmt.Sprintf("upstream_ttl=%d", o.Ans)
 	case "adv":
 		return "advance(" + time.Duration(o.Dur).String() + ")"
 	case "jan":
@@ -496,8 +500,9 @@ func bRun(cfg Cfg, h []bOp, trace bool) (out bOut) {
 	res := vsched.Run(func() {
 		table := control.VerifObserveKernelTable()
 		ans := 0
+		ttl := uint32(upTtl)
 		script := func(up, name string, qtype uint16) ([]netip.Addr, uint32, bool) {
-			return ansAddrs(ans, qtype), upTtl, true
+			return ansAddrs(ans, qtype), ttl, true
 		}
 		ctl, err := control.VerifNewDnsCtl(control.VerifDnsOpts{Optimistic: cfg.Opt, OptimisticTtl: cfg.Ttl, MaxCacheSize: cfg.Max, Matcher: matcher, Latency: latency, WithKernelTable: true}, script)
 		if err != nil {
@@ -512,10 +517,15 @@ func bRun(cfg Cfg, h []bOp, trace bool) (out bOut) {
 				if rep.Err != "" || rep.Replies != 1 {
 					panic(fmt.Sprintf("harness: question not answered: %+v", rep))
 				}
+			case "ask!": // replay files only: a question after which background workers are NOT given time to settle
+				ctl.Ask(op.Scope, op.Name, op.Qtype, dst, uint16(0x200+i))
+				continue
 			case "rej":
 				ctl.Ask("reject", op.Name, op.Qtype, dst, uint16(0x200+i))
 			case "ans":
 				ans = op.Ans
+			case "ttl": // replay files only
+				ttl = uint32(op.Ans)
 			case "adv":
 				vtime.Sleep(time.Duration(op.Dur))
 			case "jan":
